@@ -219,6 +219,96 @@ func main() {
 			}
 		}
 	}
+	// a handler that overruns HandlerTimeout AND HandlerDeadline is abandoned (a new handler
+	// loop is forked); when it finally returns, after the backoff window, nothing more may
+	// happen: no further timeout or deadline, mutations keep executing
+	for _, hname := range []string{"AEnter", "AState"} {
+		total++
+		name := "stall past timeout + deadline + backoff at " + hname
+		runCase := func() string {
+			ctx, cancel := context.WithCancel(context.Background())
+			defer cancel()
+			m := am.New(ctx, am.Schema{"A": {}, "P": {}, "Q": {}}, &am.Opts{
+				Id: "verif-c08", HandlerTimeout: 100 * time.Millisecond,
+			})
+			// set on the machine: New's option clone drops Opts.HandlerDeadline / HandlerBackoff
+			m.HandlerDeadline = 100 * time.Millisecond
+			m.HandlerBackoff = 50 * time.Millisecond
+			var timeouts atomic.Int32
+			m.OnError(func(_ *am.Machine, err error) {
+				if errors.Is(err, am.ErrHandlerTimeout) {
+					timeouts.Add(1)
+				}
+			})
+			var armed atomic.Bool
+			returned := make(chan struct{})
+			stall := func() {
+				if armed.CompareAndSwap(true, false) {
+					time.Sleep(600 * time.Millisecond)
+					close(returned)
+				}
+			}
+			neg := map[string]am.HandlerNegotiation{"AnyEnter": func(e *am.Event) bool { return true }}
+			fin := map[string]am.HandlerFinal{"AnyState": func(e *am.Event) {}}
+			if hname == "AEnter" {
+				neg["AEnter"] = func(e *am.Event) bool { stall(); return true }
+			} else {
+				fin["AState"] = func(e *am.Event) { stall() }
+			}
+			if _, err := m.HandlersBindMaps(neg, fin); err != nil {
+				panic(err)
+			}
+			armed.Store(true)
+			done := make(chan am.Result, 1)
+			go func() { done <- m.Add1("A", nil) }()
+			bad := ""
+			select {
+			case res := <-done:
+				if res != am.Canceled {
+					bad = fmt.Sprintf("result %v, expected canceled", res)
+				}
+			case <-time.After(4 * time.Second):
+				return "the mutation call did not return within 4s"
+			}
+			deadline := m.LastHandlerDeadline.Load()
+			if deadline == nil {
+				bad += " no handler deadline recorded"
+			}
+			probe := func(state, when string) {
+				pr := make(chan am.Result, 1)
+				go func() { pr <- m.Add1(state, nil) }()
+				select {
+				case r := <-pr:
+					if r != am.Executed || !m.Is1(state) {
+						bad += fmt.Sprintf(" probe mutation %s: %v", when, r)
+					}
+				case <-time.After(3 * time.Second):
+					bad += " probe mutation " + when + " blocked"
+				}
+			}
+			time.Sleep(150 * time.Millisecond)
+			probe("P", "after the backoff")
+			select {
+			case <-returned:
+			case <-time.After(3 * time.Second):
+				return bad + " the stalled handler never returned"
+			}
+			time.Sleep(500 * time.Millisecond)
+			if got := m.LastHandlerDeadline.Load(); deadline != nil && (got == nil || !got.Equal(*deadline)) {
+				bad += " a second handler deadline was hit after the abandoned handler returned"
+			}
+			if n := timeouts.Load(); n != 1 {
+				bad += fmt.Sprintf(" %d handler timeouts reported, expected 1", n)
+			}
+			probe("Q", "after the abandoned handler returned")
+			return strings.TrimSpace(bad)
+		}
+		if bad := runCase(); bad != "" {
+			if bad2 := runCase(); bad2 != "" {
+				failing = append(failing, name+" => "+bad2)
+			}
+		}
+	}
 	// forked code guarded by PanicToErr / PanicToErrState: the Exception carries the panic's message
 	for _, kind := range []string{"PanicToErr", "PanicToErrState"} {
 		for _, val := range []string{"error", "string"} {
